@@ -302,6 +302,29 @@ func runRedef(c *Ctx) {
 				}
 			})
 			c.R.Add("REDEF-R3", "planner|supplied-set", "planner", p.Pos(planner.Pos()), supplied != nil, "the planner collects the identities of all supplied input vertices", fmt.Sprintf("found=%v", supplied != nil))
+			// the supplied set as seen where the fields are added: the map itself, or what a private step that collects it
+			// returns (`inputsProvided := redefineProvided(vertexI)`), possibly handed on to the step that adds the fields
+			sameSet := func(v ssa.Value) bool {
+				b := p.Bind(v)
+				if b == supplied {
+					return true
+				}
+				if cl, ok := core.Strip(b).(*ssa.Call); ok {
+					if h := cl.Common().StaticCallee(); h != nil && p.PrivateHelper(h) && h.Signature.Results().Len() == 1 {
+						n := 0
+						for _, r := range core.Returns(h) {
+							for _, sv := range core.Sources(r.Results[0]) {
+								n++
+								if sv != supplied {
+									return false
+								}
+							}
+						}
+						return n > 0
+					}
+				}
+				return false
+			}
 			fieldKinds := map[string]bool{}
 			nf := 0
 			var aps []*ssa.Call
@@ -359,7 +382,7 @@ func runRedef(c *Ctx) {
 				excluded := false
 				for _, l := range lits {
 					if l.Kind == "ok" && !l.Pol {
-						if lk, ok := l.Of.(*ssa.Lookup); ok && supplied != nil && p.Bind(lk.X) == supplied && (lk.Index == loopKey || core.Strip(lk.Index) == loopKey) {
+						if lk, ok := l.Of.(*ssa.Lookup); ok && supplied != nil && sameSet(lk.X) && (lk.Index == loopKey || core.Strip(lk.Index) == loopKey) {
 							excluded = true
 						}
 					}
